@@ -37,7 +37,7 @@ func costPositivity(r *engine.Report, p *engine.Program, rule string) {
 		}
 		r.Add(rule, construct, mu.Pos(), st, why)
 	}
-	r.Min(rule, 3)
+	r.Min(rule, 2)
 	_ = n
 }
 
